@@ -6,7 +6,7 @@
     arrive ([U]) carry collision-free identifiers (F8 excluded).  [add_block ... true] is the
     model of the repaired reorg (fixes/F7_reorg_restore_state.diff), [false] the unrepaired one. *)
 From Coq Require Import NArith List Bool.
-From Verif Require Import ChainDB.Model ChainDB.Inv ChainDB.Reorg ChainDB.AddBlock ChainDB.Refute.
+From Verif Require Import ChainDB.Model ChainDB.Inv ChainDB.Reorg ChainDB.AddBlock ChainDB.Refute ChainDB.Wal.
 Import ListNotations.
 Open Scope N_scope.
 
@@ -157,3 +157,67 @@ Theorem C05_add_block_inv_no0_refuted :
     ~ Inv apply spent U g (fst (add_block apply true false 100 n b)).
 Proof. exact add_block_inv_no0_refuted. Qed.
 Print Assumptions C05_add_block_inv_no0_refuted.
+
+(** ** Consensus configuration with a write-ahead log (raftv2, HasWAL() = true) *)
+
+(** Without WAL the configurable delivery is the ordinary one. *)
+Theorem C05_add_block_cfg_nowal :
+  forall (apply : sroot -> block -> option sroot) (f7 f27 : bool) (orphan_cap : nat) walpre own pre n b,
+  add_block_cfg apply f7 f27 orphan_cap false walpre own pre n b = add_block_gen apply f7 f27 orphan_cap own pre n b.
+Proof. intros; apply add_block_cfg_nowal. Qed.
+Print Assumptions C05_add_block_cfg_nowal.
+
+(** A block delivered through the WAL (body pre-written by the consensus, then connected), on the
+    leader (block state present: body skipped) and on a follower (body written again). *)
+Theorem C05_wal_connect_inv :
+  forall (apply : sroot -> block -> option sroot) (spent : sroot -> txid -> bool),
+  (forall r b r', apply r b = Some r' -> NoDup (txs b) /\ forall t, In t (txs b) -> spent r t = false) ->
+  (forall r b r' t, apply r b = Some r' -> spent r' t = spent r t || mem t (txs b)) ->
+  forall (U : block -> Prop), (forall a b, U a -> U b -> hash_field a = hash_field b -> a = b) ->
+  forall (g : block),
+  forall own n b n', Inv apply spent U g n -> U b -> prev b = hash_field (best n) -> no b = no (best n) + 1 ->
+  connect_main_cfg apply own (wal_write n b) b = Some n' ->
+  Inv apply spent U g n' /\ best n' = b /\ get_block (dur n') (hash_field b) = Some b.
+Proof. intros; eapply wal_connect_inv; eauto. Qed.
+Print Assumptions C05_wal_connect_inv.
+
+(** The skip-body flag must not apply to a block whose body is not in the store (a block a WAL node
+    receives from a peer or the syncer): the invariant breaks whatever the state before. *)
+Theorem C05_connect_skip_unstored_breaks_inv :
+  forall (apply : sroot -> block -> option sroot) (spent : sroot -> txid -> bool) (U : block -> Prop) (g : block),
+  forall n b n', get_block (dur n) (hash_field b) = None ->
+  connect_main_cfg apply true n b = Some n' -> ~ Inv apply spent U g n'.
+Proof. intros; eapply connect_skip_unstored_breaks_inv; eauto. Qed.
+Print Assumptions C05_connect_skip_unstored_breaks_inv.
+
+(** ** In-memory system parameters *)
+
+(** At rest the parameters in memory are those stored in the state of the best block. *)
+Theorem C05_params_coherent :
+  forall (apply : sroot -> block -> option sroot) (spent : sroot -> txid -> bool) (U : block -> Prop) (g : block),
+  forall n, Inv apply spent U g n -> pmem n = root (best n).
+Proof. intros; eapply params_coherent; eauto. Qed.
+Print Assumptions C05_params_coherent.
+
+(** The next valid block (a valid child of the best block the node has not seen) is accepted. *)
+Theorem C05_next_block_accepted :
+  forall (apply : sroot -> block -> option sroot) (spent : sroot -> txid -> bool),
+  (forall r b r', apply r b = Some r' -> NoDup (txs b) /\ forall t, In t (txs b) -> spent r t = false) ->
+  (forall r b r' t, apply r b = Some r' -> spent r' t = spent r t || mem t (txs b)) ->
+  forall (U : block -> Prop), (forall a b, U a -> U b -> hash_field a = hash_field b -> a = b) ->
+  forall (g : block),
+  forall (f7 f27 : bool) (orphan_cap : nat) n b,
+  Inv apply spent U g n -> U b -> prev b = hash_field (best n) -> no b = no (best n) + 1 ->
+  apply (root (best n)) b = Some (root b) ->
+  mem (hash_field b) (bad n) = false -> get_block (dur n) (hash_field b) = None ->
+  find_orphan (orphans n) (hash_field b) = None ->
+  exists n', add_block apply f7 f27 orphan_cap n b = (n', ROk) /\ best n' = b /\ sdb_root n' = root b /\
+             pmem n' = root b /\ Inv apply spent U g n'.
+Proof. intros; eapply next_block_accepted; eauto. Qed.
+Print Assumptions C05_next_block_accepted.
+
+(** ... and a node whose parameters in memory are not those of its state rejects every block. *)
+Theorem C05_stale_params_reject :
+  forall (apply : sroot -> block -> option sroot) n b, pmem n <> sdb_root n -> connect_main apply n b = None.
+Proof. intros; apply stale_params_reject; auto. Qed.
+Print Assumptions C05_stale_params_reject.
